@@ -287,6 +287,14 @@ func (f *Fedi) DrawLayout(host string, mkItem func(remote bool) CItem) *CLayout 
 			n += len(p.Items)
 		}
 		l.Total = n
+		switch t.Draw(6) {
+		case 0:
+			l.Total = len(l.RootItems) // counts only what is inline (or lies)
+		case 1:
+			l.Total = 0
+		case 2:
+			l.Total = 1000000
+		}
 	}
 	f.Install(l)
 	return l
